@@ -88,6 +88,9 @@ func (d *Data) loadXYImages(load *bulkLoadInfo, extents *dvid.Extents) error {
 		timedLog := dvid.NewTimeLog()
 
 		zInBlock := load.offset.Value(2) % blockSize.Value(2)
+		if zInBlock < 0 {
+			zInBlock += blockSize.Value(2)
+		}
 		firstSlice := fileNum == 1
 		lastSlice := fileNum == len(load.filenames)
 		firstSliceInBlock := firstSlice || zInBlock == 0
